@@ -6,7 +6,7 @@ from hypothesis import strategies as st
 from trie import BinaryTrie, HexaryTrie
 from trie import branches
 from trie.exceptions import ValidationError
-from trie.fog import HexaryTrieFog
+from trie.fog import HexaryTrieFog, TrieFrontierCache
 from trie.smt import SparseMerkleProof, SparseMerkleTree, calc_root
 from trie.typing import Nibbles
 
@@ -119,6 +119,8 @@ FOG_ENTRIES = {
     "explore.prefix": (BAD_NIBBLES, NIB_ERR), "explore.segment": (BAD_NIBBLES, NIB_ERR),
     "mark_all_complete.prefix": (BAD_NIBBLES, NIB_ERR),
     "nearest_unknown.key": (BAD_NIBBLES, NIB_ERR), "nearest_right.key": (BAD_NIBBLES, NIB_ERR),
+    "cache.get.prefix": (BAD_NIBBLES, NIB_ERR), "cache.delete.prefix": (BAD_NIBBLES, NIB_ERR),
+    "cache.add.prefix": (BAD_NIBBLES, NIB_ERR), "cache.add.segment": (BAD_NIBBLES, NIB_ERR),
 }
 TABLES = {"hexary": HEX_ENTRIES, "binary": BIN_ENTRIES, "smt": SMT_ENTRIES, "fog": FOG_ENTRIES}
 
@@ -424,6 +426,11 @@ def _run_fog(case, info):
     before = (set(model), impl("serialize", fog.serialize))
     bad = bad_nibbles(kind)
     E = (Exception,)
+    cache = impl("construct", TrieFrontierCache)
+    ht = impl("construct", HexaryTrie, {})
+    impl("set", ht.set, b"\x12", b"v")
+    root_node = impl("root_node", lambda: ht.root_node)
+    impl("cache.add", cache.add, (), root_node, [(1,), (2, 3)])
     calls = {
         "Nibbles": lambda: Nibbles(bad),
         "Nibbles.add": lambda: Nibbles((1, 2)) + bad,
@@ -432,6 +439,10 @@ def _run_fog(case, info):
         "mark_all_complete.prefix": lambda: fog.mark_all_complete([(2, 3), bad]),
         "nearest_unknown.key": lambda: fog.nearest_unknown(bad),
         "nearest_right.key": lambda: fog.nearest_right(bad),
+        "cache.get.prefix": lambda: cache.get(bad),
+        "cache.delete.prefix": lambda: cache.delete(bad),
+        "cache.add.prefix": lambda: cache.add(bad, root_node, [(1,)]),
+        "cache.add.segment": lambda: cache.add((), root_node, [(1,), bad]),
     }
     r = impl(entry, calls[entry], allowed=E)
     _refused(entry, kind, r, FOG_ENTRIES[entry][1])
